@@ -10,6 +10,11 @@ PlanningException while the same query without the offending element is planned.
 value in parentheses (`ts > (LATEST)`), LATEST as first operand, LIMIT 0, column names that contain a dot, and the
 order column not a bare operand (`CAST(ts AS int) >= 3`, `3 BETWEEN 2 AND ts`: a refusal is accepted there, a plan
 must hand over the rows of the equivalent plain condition).
+Hunting wave: LATEST under another operator than `>` / `=` (`ts >= LATEST`, `ts < LATEST`, `ts BETWEEN LATEST AND 5`,
+`ts IN (LATEST)`), two-sided ranges (`ts > a AND ts < b`), `NOT ts <= 3`, `(ts > 3 OR ts = 3)` -- a refusal is accepted,
+a plan must hand over the rows the condition means (LATEST = the most recent time of the partition); window 0;
+conditions qualified with the model's alias (`tb.g = 1`); JOIN ... ON; explicit targets; USING; table / model named
+without their database (default namespace); the join as the source of INSERT / CREATE TABLE / as a sub-query.
 """
 import copy, sqlite3
 from hypothesis import strategies as st
@@ -29,7 +34,11 @@ RULE = ('cases = (query, model metadata, 1..3 contents of int1.t1(id, ts, g, h, 
         'x window x group columns x join order over three fixed tables.  non-trivial = accepted query for which some '
         'partition has more candidate context rows than the window / a tie at the window edge / fewer candidates than '
         'the window, or rows with NULL time exist; or a rejected shape whose base query (same query without the '
-        'offending element) is accepted; distinct by (query text, metadata, data)')
+        'offending element) is accepted; distinct by (query text, metadata, data).  Hunting wave: LATEST under the other '
+        'operators (>=, <, <=, BETWEEN bound, IN item), two conditions on the order column (ts > a AND ts < b), NOT / OR '
+        'spellings of a comparison, window 0, conditions qualified with the model\'s alias, JOIN .. ON, explicit targets, '
+        'USING, table / model named through the default namespace, the join as source of INSERT / CREATE TABLE / '
+        'as a sub-query')
 ASSUMPTIONS = ['step semantics (FetchDataframeStep, MultipleSteps union, MapReduceStep with $var[col] substitution) are '
                'read from planner/steps.py and tests/test_planner/test_ts_predictor.py; the executor lives elsewhere',
                'union = concatenation (a row fetched twice counts as handed over twice)',
@@ -38,7 +47,10 @@ ASSUMPTIONS = ['step semantics (FetchDataframeStep, MultipleSteps union, MapRedu
                '`ts > t` pinned by the repo tests is accepted; for `ts IN (...)` any context rows not newer than the '
                'largest listed time are accepted; order of the handed rows is not judged; a condition in which the '
                'order column is not a bare operand (inside CAST, as a bound of BETWEEN) may be refused with '
-               'PlanningException, and when it is planned only the presence of an output filter is judged, not its text']
+               'PlanningException, and when it is planned only the presence of an output filter is judged, not its text; '
+               'the same holds for LATEST under an operator other than > / = (meaning when planned: the most recent time '
+               'of the partition), for two conditions on the order column, and for NOT / OR spellings of one comparison; '
+               'a condition qualified with the alias of the model (`tb.g = 1`) is read as the user\'s partition / time filter']
 FLOORS = {'quick': {'__nontrivial__': 4000, 'accepted': 4500, 'reject': 1800, 'src:subselect': 1500, 'model:left': 2500,
                     'groups:0': 1000, 'groups:2': 2500, 'limit': 4000, 'window:3': 1900, 'letter-case-differs': 1500,
                     'time:between': 550, 'time:=latest': 550, 'time:>latest': 550, 'time:in': 550, 'time:=': 550,
@@ -51,12 +63,20 @@ FLOORS = {'quick': {'__nontrivial__': 4000, 'accepted': 4500, 'reject': 1800, 's
                     'reject:ungrouped-partition-col': 50, 'reject:other-col-cast': 50, 'reject:other-col-case': 50,
                     'limit:0': 600, 'time-value:parenthesised': 400, 'time:latest-first-operand': 150,
                     'time-form:cast': 150, 'time-form:between-3rd': 15, 'time-form:between-2nd': 15,
-                    'colname:dotted': 300},
+                    'colname:dotted': 300,
+                    # hunting wave (calibrated at 6 shards, the smallest configuration in use)
+                    'time-latest:other-operator': 280, 'time:range': 70, 'time-form:not': 45, 'time-form:or-eq': 22,
+                    'window:0': 260, 'qualifier:model-alias': 200, 'join:on-clause': 130, 'targets:columns': 170,
+                    'using': 150, 'names:table-default-ns': 150, 'names:model-default-ns': 130,
+                    'wrap:insert': 70, 'wrap:create-table': 70, 'wrap:subquery': 70},
           'thorough': {}}
 FLOORS['thorough'] = {k: 10 * v for k, v in FLOORS['quick'].items()}   # 12.5 x the random part of quick
 N = {'quick': 1200, 'thorough': 15000}
 
 TS_VALUES = [None, 1, 2, 3, 4, 5]
+# LATEST combined with an operator the statement does not list (it lists `> LATEST` and `= LATEST`)
+OTHER_LATEST = ['>=latest', '<latest', '<=latest', 'between-latest-lo', 'between-latest-hi', 'in-latest']
+NEG = {'>': '<=', '>=': '<', '<': '>=', '<=': '>'}
 CLAUSE_SHAPES = ['order-by', 'group-by', 'having', 'group-by+having', 'offset']
 WHERE_SHAPES = ['other-col', 'other-col-rhs', 'other-col-or', 'other-col-in-list', 'other-col-func',
                 'other-col-isnull', 'other-col-not', 'ungrouped-partition-col', 'other-col-cast', 'other-col-case']
@@ -115,12 +135,25 @@ def cond_text(c, A, upper=False, names=None):
         return f'{lit(v[0])} between {lit(v[0] - 1)} and {col}'
     if form == 'between-2nd':
         return f'{lit(v[0])} between {col} and {lit(v[0] + 1)}'
+    if form == 'not':                            # NOT ts <= 3  (= ts > 3)
+        return f'not {col} {NEG[op]} {lit(v[0])}'
+    if form == 'or-eq':                          # (ts > 3 OR ts = 3)  (= ts >= 3)
+        return f'({col} {op[0]} {lit(v[0])} or {col} = {lit(v[0])})'
+    if op == 'range':                            # ts > a AND ts < b, either part first
+        lo, hi = f'{col} {c["lo_op"]} {lit(v[0])}', f'{col} {c["hi_op"]} {lit(v[1])}'
+        return f'{hi} and {lo}' if c.get('hi_first') else f'{lo} and {hi}'
+    if op == 'between-latest-lo':
+        return f'{col} between LATEST and {lit(v[0])}'
+    if op == 'between-latest-hi':
+        return f'{col} between {lit(v[0])} and LATEST'
+    if op == 'in-latest':
+        return f'{col} in ({", ".join([lit(x) for x in v] + ["LATEST"])})'
     if op == 'between':
         return f'{col} between {lit(v[0])} and {lit(v[1])}'
     if op == 'in':
         return f'{col} in ({", ".join(lit(x) for x in v)})'
-    if op in ('>latest', '=latest'):
-        o = op[0]
+    if op.endswith('latest'):
+        o = op[:-6]
         return f'{par("LATEST")} {tsexec.flip(o)} {col}' if c.get('rev') else f'{col} {o} {par("LATEST")}'
     if c.get('rev'):
         return f'{par(lit(v[0]))} {op} {col}'
@@ -138,10 +171,24 @@ def conj(parts, nest):
     return ' and '.join(parts)
 
 
+WRAPS = {'insert': 'insert into int1.t9 ({})', 'create-table': 'create table int1.t9 ({})',
+         'subquery': 'select * from ({}) as x'}
+
+
 def build_sql(case, with_reject=True):
+    """The join query, optionally as the source of INSERT / CREATE TABLE or as a sub-query (`wrap`)."""
+    sql = build_join_sql(case, with_reject)
+    return WRAPS[case['wrap']].format(sql) if case.get('wrap') else sql
+
+
+def build_join_sql(case, with_reject=True):
     rej = case.get('reject') if with_reject else None
     sub = case['source'] == 'subselect'
-    outer_q = 'ta.' if case.get('outer_alias', True) else ('t1.' if not sub else '')
+    data_q = 'ta.' if case.get('outer_alias', True) else ('t1.' if not sub else '')
+    # conditions of the outer query may also be qualified with the model's alias (`tb.g = 1`)
+    outer_q = 'tb.' if case.get('qual') == 'model' else data_q
+    names = case.get('names')
+    tname = 't1' if names == 'table-default-ns' else 'int1.t1'
     inner_q = 't.' if case.get('inner_alias') else ''
     inner, outer = [], []
     for c in case['conds']:
@@ -166,22 +213,28 @@ def build_sql(case, with_reject=True):
             lst.insert(min(rej.get('pos', 0), len(lst)), text)
     if sub:
         iw = conj(inner, case.get('nest', 'left'))
-        data = '(select * from int1.t1' + (' as t' if case.get('inner_alias') else '') + \
+        data = '(select * from ' + tname + (' as t' if case.get('inner_alias') else '') + \
                (' where ' + iw if iw else '') + tail_inner + ')' + (' as ta' if case.get('outer_alias', True) else '')
     else:
-        data = 'int1.t1' + (' as ta' if case.get('outer_alias', True) else '')
-    model = 'proj.tsm as tb'
+        data = tname + (' as ta' if case.get('outer_alias', True) else '')
+    model = ('tsm' if names == 'model-default-ns' else 'proj.tsm') + ' as tb'
     left, right = (model, data) if case['model_left'] else (data, model)
     jt = case.get('join', 'join')
     frm = f'{left}, {right}' if jt == ',' else f'{left} {jt} {right}'
+    if case.get('on') and jt != ',' and data_q and case['groups']:
+        gname = real_name(case, case['groups'][0])
+        gname = '`' + gname + '`' if '.' in gname else gname
+        frm += f' on {data_q}{gname} = tb.{gname}'
     ow = conj(outer, case.get('nest', 'left'))
-    sql = f'select * from {frm}' + (' where ' + ow if ow else '')
+    targets = f'{data_q}id, tb.v' if case.get('targets') and data_q else '*'
+    sql = f'select {targets} from {frm}' + (' where ' + ow if ow else '')
+    using = ' using a = 1' if case.get('using') else ''
     if rej is not None and rej['shape'] == 'offset' and tail_outer:
-        return sql + tail_outer                  # `limit n offset m` replaces the plain LIMIT
+        return sql + tail_outer + using          # `limit n offset m` replaces the plain LIMIT
     sql += tail_outer                            # GROUP BY / HAVING / ORDER BY go before LIMIT
     if case.get('limit') is not None:
         sql += f' limit {case["limit"]}'
-    return sql
+    return sql + using
 
 
 def catalog(case):
@@ -189,14 +242,52 @@ def catalog(case):
     nm = lambda c: real_name(case, c).upper() if up else real_name(case, c)
     info = {'timeseries': True, 'window': case['window'], 'order_by_column': nm('ts'),
             'group_by_columns': [nm(c) for c in case['groups']]}
+    dns = {'table-default-ns': 'int1', 'model-default-ns': 'proj'}.get(case.get('names'), 'mindsdb')
     if case.get('meta_form', 'list') == 'list':
-        return dict(integrations=['int1'], default_namespace='mindsdb',
+        return dict(integrations=['int1'], default_namespace=dns,
                     predictor_metadata=[dict(info, name='tsm', integration_name='proj')])
-    return dict(integrations=['int1'], predictor_namespace='proj', default_namespace='mindsdb',
+    return dict(integrations=['int1'], predictor_namespace='proj', default_namespace=dns,
                 predictor_metadata={'tsm': info})
 
 
 # --------------------------------------------------------------------------------------------- the oracle
+def soft(time):
+    """Condition outside the forms the statement lists: a refusal is in order, a plan must hand over the right rows."""
+    return time is not None and bool(time.get('form') or time['op'] in OTHER_LATEST or time['op'] == 'range')
+
+
+def part_reference(R, time):
+    """(S, cand, mode) of one partition (R = its rows with a time, partition filters applied) for LATEST under another
+    operator (LATEST = the most recent time of the partition) and for a two-sided range; see tsexec.reference."""
+    op, v = time['op'], time.get('v', [])
+    cmp = {'>': lambda a, b: a > b, '>=': lambda a, b: a >= b, '<': lambda a, b: a < b, '<=': lambda a, b: a <= b}
+    if op == 'range':
+        lo = lambda r: cmp[time['lo_op']](r[1], v[0])
+        hi = lambda r: cmp[time['hi_op']](r[1], v[1])
+        return [r for r in R if lo(r) and hi(r)], [r for r in R if not lo(r)], 'exact'
+    mx = max([r[1] for r in R], default=None)
+    if op == '>=latest':
+        return [r for r in R if r[1] == mx], [r for r in R if r[1] < mx], 'exact'
+    if op == '<latest':
+        return [r for r in R if r[1] < mx], None, 'exact'
+    if op == '<=latest':
+        return list(R), None, 'exact'
+    if op == 'between-latest-lo':
+        return [r for r in R if mx <= r[1] <= v[0]], [r for r in R if r[1] < mx], 'exact'
+    if op == 'between-latest-hi':
+        return [r for r in R if v[0] <= r[1]], [r for r in R if r[1] < v[0]], 'exact'
+    if op == 'in-latest':
+        return [r for r in R if r[1] == mx or r[1] in v], list(R), 'open'
+    raise ValueError(op)
+
+
+def reference_ext(rows, groups, pfs, time):
+    if time is None or not (time['op'] in OTHER_LATEST or time['op'] == 'range'):
+        return tsexec.reference(rows, groups, pfs, time)
+    base = tsexec.reference(rows, groups, pfs, None)      # per partition: S = R
+    return {k: part_reference(R, time) for k, (R, _, _) in base.items()}
+
+
 def otf_norm(n, tsname='ts'):
     """Qualifier-free normal form (op, values) of an output_time_filter node."""
     if n is None:
@@ -231,7 +322,7 @@ def features_of(case):
     f = ['src:' + case['source']]
     if sub:
         for c in case['conds']:
-            if c.get('at', 'outer') == 'outer' and c['op'] not in ('>latest', '=latest'):
+            if c.get('at', 'outer') == 'outer' and not c['op'].endswith('latest'):
                 f.append('outer-nonlatest-cond')
     rej = case.get('reject')
     if rej:
@@ -251,8 +342,23 @@ def spelling_tags(case):
             f.append('time-value:parenthesised')
         if time.get('form'):
             f.append('time-form:' + time['form'])
-        if time.get('rev') and time['op'] in ('>latest', '=latest'):
+        if time.get('rev') and time['op'].endswith('latest'):
             f.append('time:latest-first-operand')
+        if time['op'] in OTHER_LATEST:
+            f.append('time-latest:other-operator')
+    if case.get('qual') == 'model':
+        f.append('qualifier:model-alias')
+    if case.get('on') and case.get('join', 'join') != ',' and case['groups'] and \
+            (case.get('outer_alias', True) or case['source'] == 'table'):
+        f.append('join:on-clause')
+    if case.get('targets') and (case.get('outer_alias', True) or case['source'] == 'table'):
+        f.append('targets:columns')
+    if case.get('using'):
+        f.append('using')
+    if case.get('names'):
+        f.append('names:' + case['names'])
+    if case.get('wrap'):
+        f.append('wrap:' + case['wrap'])
     if case.get('limit') == 0:
         f.append('limit:0')
     if case.get('colnames'):
@@ -341,8 +447,9 @@ def judge(case, col):
     try:
         plan = plan_case(case, sql)
     except PlanningException as e:
-        if time is not None and time.get('form'):
-            # the order column is not a bare operand: outside the listed condition forms, a refusal is in order
+        if soft(time):
+            # the order column is not a bare operand / LATEST under another operator / two conditions / NOT / OR:
+            # outside the listed condition forms, a refusal is in order
             # (handing over rows that are not those of the equivalent plain condition is not)
             col.case(key, False, classes + ['refused-time-form'])
             return []
@@ -374,7 +481,7 @@ def judge(case, col):
     app, data = loc['apply'], loc['data']
     exp_f = tsexec.semantic_time(time)
     got_f = otf_norm(app.output_time_filter, tsname)
-    if time is not None and time.get('form'):
+    if soft(time):
         if app.output_time_filter is None:
             out.append(rec('output-filter', 'output_time_filter',
                            f'user condition {exp_f} (spelled {cond_text(time, "", False, cnames)}) but no output_time_filter'))
@@ -413,7 +520,7 @@ def judge(case, col):
     null_keys = 0
     for di, rows in enumerate(case['data']):
         rows = [tuple(r) for r in rows]
-        ref = tsexec.reference(rows, groups, pfs, time)
+        ref = reference_ext(rows, groups, pfs, time)
         conn = engine.connect({(None, 't1'): ([refprint.qid(real_name(case, c)) for c in tsexec.COLS], rows)})
         ex = tsexec.Exec(conn)
         try:
@@ -460,7 +567,7 @@ def judge(case, col):
         finally:
             conn.close()
         judged = {k: v for k, v in ref.items() if None not in k}
-        traits |= tsexec.data_traits(judged, case['window'])
+        traits |= tsexec.data_traits(judged, case['window']) - ({'data:tie-at-window-edge'} if case['window'] == 0 else set())
         if any(r[1] is None for r in rows):
             traits.add('data:null-time')
         if not rows:
@@ -488,15 +595,26 @@ def judge(case, col):
 
 # --------------------------------------------------------------------------------------------- generators
 TIME_OPS = ['none', '>', '>=', '=', '<', '<=', 'between', 'in', '>latest', '=latest']
+# drawn once in 9: LATEST under another operator, two conditions on the order column
+RARE_TIME_OPS = OTHER_LATEST + ['range', 'range', 'range']
 
 
 @st.composite
 def time_conds(draw):
     op = draw(st.sampled_from(TIME_OPS))
     t = st.integers(0, 6)
+    if draw(st.integers(0, 8)) == 0:
+        op = draw(st.sampled_from(RARE_TIME_OPS))
     if op == 'none':
         return None
-    if op in ('>latest', '=latest'):
+    if op == 'range':
+        return {'kind': 'time', 'op': op, 'v': [draw(t), draw(t)], 'lo_op': draw(st.sampled_from(['>', '>='])),
+                'hi_op': draw(st.sampled_from(['<', '<='])), 'hi_first': draw(st.booleans())}
+    if op in ('between-latest-lo', 'between-latest-hi'):
+        return {'kind': 'time', 'op': op, 'v': [draw(t)]}
+    if op == 'in-latest':
+        return {'kind': 'time', 'op': op, 'v': draw(st.lists(st.integers(1, 5), min_size=0, max_size=2))}
+    if op.endswith('latest'):
         c = {'kind': 'time', 'op': op}
         sp = draw(st.integers(0, 5))             # spellings: `ts > (LATEST)`, `LATEST < ts`, `(LATEST) < ts`
         if sp in (0, 1):
@@ -514,7 +632,8 @@ def time_conds(draw):
         c['paren'] = True                        # `ts > (3)`
     elif sp == 1:
         c['rev'] = False
-        c['form'] = draw(st.sampled_from(['cast'] + {'>=': ['between-3rd'], '<=': ['between-2nd']}.get(op, [])))
+        c['form'] = draw(st.sampled_from(['cast'] + {'>=': ['between-3rd', 'or-eq'], '<=': ['between-2nd', 'or-eq']}.get(op, [])
+                                         + (['not'] if op in NEG else [])))
     return c
 
 
@@ -548,7 +667,7 @@ def tables(draw):
 @st.composite
 def cases(draw):
     groups = draw(st.sampled_from([[], ['g'], ['g'], ['h'], ['g', 'h'], ['g', 'h'], ['h', 'g']]))
-    case = {'window': draw(st.integers(1, 3)), 'groups': groups,
+    case = {'window': draw(st.sampled_from([0, 1, 1, 1, 2, 2, 2, 3, 3, 3])), 'groups': groups,
             'upper_meta': draw(st.sampled_from([False, False, False, True])),
             'upper_cols': draw(st.sampled_from([False, False, False, True])),
             'meta_form': draw(st.sampled_from(['list', 'list', 'dict'])),
@@ -568,8 +687,6 @@ def cases(draw):
     conds = draw(st.permutations(conds))
     sub = case['source'] == 'subselect'
     if sub:
-        if case['model_left'] and draw(st.integers(0, 2)):
-            case['model_left'] = False        # model on the left of a sub-select crashes (known): keep it rare
         case['inner_alias'] = draw(st.booleans())
         # where the conditions live: all inside (dbt shape), LATEST outside (pinned by test_dbt_latest), or anywhere
         mode = draw(st.sampled_from(['inner', 'inner', 'latest-outer', 'latest-outer', 'any']))
@@ -577,7 +694,7 @@ def cases(draw):
             if mode == 'inner':
                 c['at'] = 'inner'
             elif mode == 'latest-outer':
-                c['at'] = 'outer' if c['op'] in ('>latest', '=latest') else 'inner'
+                c['at'] = 'outer' if c['op'].endswith('latest') else 'inner'
             else:
                 c['at'] = draw(st.sampled_from(['inner', 'outer']))
         if all(c.get('at') == 'inner' for c in conds):
@@ -585,6 +702,21 @@ def cases(draw):
     else:
         case['outer_alias'] = draw(st.sampled_from([True, True, True, False]))
     case['conds'] = list(conds)
+    # other spellings around the conditions: model's alias as qualifier, JOIN .. ON, explicit targets, USING,
+    # table / model named without their database
+    extra = draw(st.integers(0, 19))
+    if extra == 0 and case['outer_alias']:
+        case['qual'] = 'model'
+    elif extra == 1:
+        case['on'] = True
+    elif extra == 2:
+        case['targets'] = True
+    elif extra == 3:
+        case['using'] = True
+    elif extra in (4, 5):
+        case['names'] = 'table-default-ns' if extra == 4 else 'model-default-ns'
+    elif extra in (6, 7):
+        case['wrap'] = draw(st.sampled_from(sorted(WRAPS)))
     if draw(st.integers(0, 4)) == 0:
         shapes = CLAUSE_SHAPES + WHERE_SHAPES
         if len(groups) == 2:
@@ -630,7 +762,13 @@ def bounded_space():
               {'kind': 'time', 'op': '>=', 'v': [3], 'paren': True}, {'kind': 'time', 'op': '=', 'v': [3], 'paren': True}] + \
              [{'kind': 'time', 'op': op, 'v': [3], 'form': 'cast'} for op in ('>', '>=', '=', '<=')] + \
              [{'kind': 'time', 'op': '>=', 'v': [3], 'form': 'between-3rd'},
-              {'kind': 'time', 'op': '<=', 'v': [3], 'form': 'between-2nd'}]
+              {'kind': 'time', 'op': '<=', 'v': [3], 'form': 'between-2nd'}] + \
+             [{'kind': 'time', 'op': op, 'v': [3]} for op in OTHER_LATEST] + \
+             [{'kind': 'time', 'op': '>=latest', 'rev': True}, {'kind': 'time', 'op': '<latest', 'rev': True}] + \
+             [{'kind': 'time', 'op': 'range', 'v': [2, 4], 'lo_op': lo, 'hi_op': hi, 'hi_first': hf}
+              for lo, hi, hf in (('>', '<', False), ('>=', '<=', True), ('>', '<=', True))] + \
+             [{'kind': 'time', 'op': op, 'v': [3], 'form': 'not'} for op in ('>', '>=', '<', '<=')] + \
+             [{'kind': 'time', 'op': op, 'v': [3], 'form': 'or-eq'} for op in ('>=', '<=')]
     # (1) accepted shapes: table source and the sub-select ("dbt") shape with the conditions inside
     for source in ('table', 'subselect'):
         for groups in ([], ['g'], ['g', 'h']):
@@ -639,16 +777,18 @@ def bounded_space():
                 pfl += [{'kind': 'pf', 'col': 'g', 'op': '=', 'v': [2]}, {'kind': 'pf', 'col': 'g', 'op': 'in', 'v': [1, 2]}]
             for ti, tc in enumerate(times):
                 for pf in pfl:
-                    for window in (1, 2, 3):
+                    for window in (0, 1, 2, 3):
                         for left in (False, True):
-                            if source == 'subselect' and (window == 2 or (left and window == 3)):
-                                continue            # (model on the left of a sub-select is a known crash)
+                            if window == 0 and (source == 'subselect' or ti >= n_plain or left):
+                                continue            # window 0: every plain condition x partition filter, table source
+                            if source == 'subselect' and window == 2:
+                                continue
                             if ti >= n_plain and (window == 3 or (pf is not None and pf['op'] == 'in')):
                                 continue            # spellings: windows 1, 2 and partition filter none / =
                             conds = [copy.deepcopy(c) for c in (tc, pf) if c is not None]
                             for c in conds:
                                 if source == 'subselect':
-                                    c['at'] = 'outer' if c['op'] in ('>latest', '=latest') and window == 3 else 'inner'
+                                    c['at'] = 'outer' if c['op'].endswith('latest') and window == 3 else 'inner'
                             yield dict(base, window=window, groups=groups, model_left=left, source=source,
                                        inner_alias=True, limit=(0 if window == 1 else 2) if left else None,
                                        conds=conds, data=FIXED)
@@ -660,6 +800,22 @@ def bounded_space():
                          if c is not None]
                 yield dict(base, window=2, groups=groups, model_left=False, source='table', inner_alias=True,
                            limit=None, conds=conds, data=FIXED[:2], colnames=colnames)
+    # (1c) spellings around the conditions: model's alias as qualifier, JOIN .. ON, explicit targets, USING, table /
+    #      model named without their database: every plain time condition x group columns x join order
+    for extra in ({'qual': 'model'}, {'on': True}, {'targets': True}, {'using': True}, {'names': 'table-default-ns'},
+                  {'names': 'model-default-ns'}, {'wrap': 'insert'}, {'wrap': 'create-table'}, {'wrap': 'subquery'}):
+        for groups in ([], ['g'], ['g', 'h']):
+            for tc in times[:n_plain]:
+                for left in (False, True):
+                    for source in ('table', 'subselect'):
+                        if source == 'subselect' and ('qual' in extra or left != (tc is not None and tc['op'] == '>')):
+                            continue            # sub-select: names / ON / targets / USING, one join order per condition
+                        conds = [copy.deepcopy(c) for c in (tc, {'kind': 'pf', 'col': 'g', 'op': '=', 'v': [1]} if groups else None)
+                                 if c is not None]
+                        for c in conds:
+                            c['at'] = 'inner'
+                        yield dict(base, window=2, groups=groups, model_left=left, source=source, inner_alias=False,
+                                   limit=1 if left else None, conds=conds, data=FIXED[:2], **extra)
     # (2) rejected shapes: every shape and spelling x group columns x join order x a time condition or none
     for shape in CLAUSE_SHAPES + WHERE_SHAPES:
         for variant in range(len(VARIANTS[shape])):
@@ -687,6 +843,10 @@ def run_shard(col, k, nshards, tier, seed):
                                     'columns ([],[g],[g,h]) x join order x source (table, sub-select), 3 fixed tables; '
                                     '12 further spellings of the time condition (parenthesised value, LATEST first, '
                                     'CAST / BETWEEN-bound forms) x windows 1,2; LIMIT 0 / 2; dotted column names x '
-                                    'time operator x group columns; '
+                                    'time operator x group columns; LATEST under 6 other operators, 3 two-sided ranges, '
+                                    'NOT / OR forms x windows 1,2; window 0 x time operator x partition filter; '
+                                    "model's alias as qualifier / ON / targets / USING / default-namespace names / join as "
+                                    "source of INSERT, CREATE TABLE, sub-query x time "
+                                    'operator x group columns x join order; '
                                     'rejected: every shape and spelling x group columns x join order x source')
     hyp.explore(col, cases(), judge, N[tier], seed, shrink_key=lambda r: (r['kind'], r['site'][:40]))
